@@ -184,14 +184,14 @@ def wants(op):
     if n == 'un' and op[1] == 'invert': return ('l', 'b')
     if n == 'un' and op[1] == 'setro': return ('v', 'a')
     if n == 'un' and op[1] == 'clear': return ('v', 'a', 'b')
-    if n == 'ibin':
+    if n == 'ibin' and not (op[3][0] in ('l2', 'n2', 'bn2') and len(op[3][1]) == 1):     # a one-row 2-d operand is reduced to 1-d
         k = op[3][0]
         if k in ('l2', 'n2'): return ('a',)
         if k == 'bn2': return ('b',) if op[1] in ('and', 'xor', 'or') else ('a', 'b')
     if n in ('bin', 'ibin') and op[1] in ('and', 'xor', 'or'): return ('l', 'b')
     if n == 'ibin':
         k = op[3][0]
-        if k in ('s', 'i', 'n0', 'l', 'n'): return ('v', 'a')
+        if k in ('s', 'i', 'n0', 'l', 'n', 'l2', 'n2'): return ('v', 'a')
     if n == 'red' and op[1] in ('sum', 'mean', 'max', 'min'): return ('v', 'l', 'a')
     return ('v', 'l', 'a', 'b')
 
@@ -625,9 +625,46 @@ def gen_history(rng, nops_max=30):
     ops = [gen_op(rng, n, m, malformed) for _ in range(rng.randint(4, nops_max))]
     return {'objs': objs, 'ops': ops}
 
+def readonly_sweep():
+    """every in-place operator x every operand kind, every form of item assignment and clear() aimed at read-only objects"""
+    T, Fa = True, False
+    def operands(n, vals, bools):
+        return [['s', 2.0], ['i', 2], ['n0', 2.0], ['sb', T], ['sb', Fa], ['l', vals], ['n', vals], ['bl', bools], ['bn', bools],
+                ['o', 1, ['v']], ['o', 2, ['l']], ['o', 3, ['a']], ['l2', [vals]], ['n2', [vals]], ['o', 0, ['v']]]
+    def sets(n):
+        out = []
+        for ix in (['i', 0], ['t', n - 1], ['li', list(range(n))], ['ni', [0]], ['m', [T] + [Fa] * (n - 1)], ['nm', [T] * n],
+                   ['sl', 0, n, 1], ['sl', None, None, None], ['o']):
+            cnt = index_count(ix, n)
+            out.append(['set', 0, ix, ['s', 5.0], {'raw': True}])
+            out.append(['set', 0, ix, ['s', 0.0], {'raw': True}])
+            if cnt is not None: out.append(['set', 0, ix, ['l', [7.0] * cnt], {'raw': True}])
+        out.append(['set', 0, ['o'], ['o', 1, ['v']], {'raw': True}])
+        return out
+    cases = []
+    vals, bools = [2.0, 4.0, 8.0], [T, Fa, T]
+    others = [['v', vals, False], ['l', bools], ['a', [[1.0, 2.0, 4.0]]]]
+    body = [['ibin', name, 0, a] for name in ARITH for a in operands(3, vals, bools)] + sets(3) + [['un', 'clear', 0], ['un', 'toarray', 0]]
+    cases.append({'objs': [['v', [1.0, -2.0, 0.5], True]] + others, 'ops': body})                              # read-only from the start
+    cases.append({'objs': [['v', [1.0, 0.0, 0.5], False]] + others, 'ops': [['un', 'setro', 0]] + body})       # setflags(0) in the history
+    cases.append({'objs': [['v', [3.0], True], ['v', vals, False], ['l', bools], ['a', [vals]]],               # length-1 target: resize branches
+                  'ops': [['ibin', name, 0, a] for name in ARITH for a in operands(3, vals, bools)] + sets(1) + [['un', 'clear', 0]]})
+    # read-only SparseArray: item assignment through the rows is rejected; in-place operators and clear() are not (listed finding)
+    aops = [['un', 'setro', 0]]
+    for name in ARITH:
+        for a in (['s', 2.0], ['i', 2], ['sb', T], ['l', vals], ['n', vals], ['bl', [T, T, T]], ['o', 1, ['v']], ['o', 2, ['l']], ['o', 3, ['a']],
+                  ['n2', [vals, vals]], ['o', 0, ['a']]):
+            aops.append(['ibin', name, 0, a])
+    for ax in (['row', ['i', 0]], ['row', ['o']], ['pair', ['i', 1], ['i', 2]], ['pair', ['o'], ['i', 0]], ['pair', ['i', 0], ['o']],
+               ['pair', ['o'], ['o']], ['pair', ['li', [0, 1]], ['li', [1, 2]]], ['pair', ['sl', 0, 1, None], ['sl', 0, 2, None]]):
+        aops.append(['aset', 0, ax, ['s', 9.0], {'raw': True}])
+    aops += [['un', 'clear', 0], ['un', 'toarray', 0]]
+    cases.append({'objs': [['a', [[1.0, 2.0, 4.0], [0.5, 0.0, -1.0]]], ['v', vals, False], ['l', [T, T, T]], ['a', [[1.0, 2.0, 4.0]]]], 'ops': aops})
+    return cases
+
 def gen_cases(rng, tier):
     nrand = 260 if tier == 'quick' else 5000
-    cases = [gen_history(rng) for _ in range(nrand)]
+    cases = readonly_sweep() + [gen_history(rng) for _ in range(nrand)]
     cases += small_scope(rng, tier)
     return cases
 
@@ -751,12 +788,22 @@ def np_value(r):
     return ['scal', fr_json(frac(r))]
 
 def in_fragment(store, op):
-    """operations covered by np_step of coq/C09/Dense.v: float vector target, vector / scalar / 1-d operands"""
+    """operations covered by np_step of coq/C09/Dense.v"""
     n = op[0]
     pos = {'bin': 2, 'ibin': 2, 'rbin': 3, 'un': 2, 'get': 1, 'set': 1, 'red': 2}.get(n)
-    if pos is None or kind_of(store[op[pos]]) != 'v': return False
+    if pos is None: return False
+    t = kind_of(store[op[pos]])
+    if t == 'a':        # row-wise lifts: arithmetic with a vector / scalar / 1-d operand
+        if n not in ('bin', 'ibin') or op[1] not in ARITH: return False
+        a = op[3]
+        if a[0] == 'o': return kind_of(store[a[1]]) in ('v', 'l')
+        return a[0] in ('s', 'i', 'n0', 'sb', 'l', 'n', 'bl', 'bn')
+    if t == 'l':        # logical vector with a logical vector
+        if n not in ('bin', 'ibin') or op[1] not in ('add', 'mul', 'and', 'xor', 'or'): return False
+        a = op[3]
+        return a[0] == 'o' and kind_of(store[a[1]]) == 'l'
+    if t != 'v': return False
     if n in ('bin', 'ibin') and op[1] in ('and', 'xor', 'or'): return False
-    if n == 'bin' and op[1] in ('eq', 'ne') : pass
     if n == 'un' and op[1] == 'invert': return False
     ai = {'bin': 3, 'ibin': 3, 'set': 3}.get(n)
     if ai is not None:
@@ -769,6 +816,7 @@ def cdobj(o):
     if o is None: return None
     if o[0] == 'v': return f'(DV {qlist([F(x) for x in o[1]])} false)'
     if o[0] == 'l': return f'(DL {cbits(o[1])})'
+    if o[0] == 'a': return f'(DA {clist(o[1], lambda r: qlist([F(x) for x in r]))} false)'
     return None
 def cdoutcome(o):
     k = o[0]
@@ -838,7 +886,15 @@ def oracle(case):
     for k, (x, o) in enumerate(zip(store, case['objs'])):
         want = [fr(v) for v in (o[1] if o[0] in ('v', 'l') else [v for r in o[1] for v in r])]
         if flat(snap(x))[1] != want: return f'construct: object {k} does not represent its input'
-    for raw in case['ops']:
+    for x in store:
+        msg = probe_readonly(x)
+        if msg: return msg
+    for raw in list(case['ops']) + [None]:
+        if raw is None:
+            for x in store:
+                msg = probe_readonly(x)
+                if msg: return msg
+            break
         op = resolve_op(store, raw)
         if op is None: continue
         n, name, t, ak, pos = opkind(store, op)
@@ -867,6 +923,7 @@ def oracle(case):
                     return f'{tag}: rejected-but-modified: raised {o[1]} after modifying the target'
                 return f'{tag}: frame: object {k} changed'
         if ro_target and mutator and o[0] != 'err':
+            if t == 'v': return f'{tag}: read-only vector: {name or n} on a read-only SparseVector is accepted'
             return f'{tag}: read-only: write to a read-only array accepted'
         if ref[0] == 'skip': continue
         if o[0] == 'err' and o[1] in ('ERuntime', 'EKey') or (o[0] == 'err' and o[1].startswith('EUnknown')):
@@ -909,6 +966,42 @@ def oracle(case):
 def _stop(store):
     return None
 
+def ro_operands(n):
+    e = env()
+    one = [1.0] * n
+    return [('float', 2.0), ('int', 2), ('0-d ndarray', np.array(2.0)), ('bool', True), ('list', [2.0] * n), ('ndarray', np.array([2.0] * n)),
+            ('bool list', [True] * n), ('bool ndarray', np.array([True] * n)), ('SparseVector', e['SV'](one)),
+            ('SparseLogicalVector', e['SL']([True] * n)), ('1-row SparseArray', e['SA']([one])), ('1-row 2-d ndarray', np.array([[2.0] * n]))]
+
+def probe_readonly(x):
+    """read_only => every mutator raises and the data is unchanged (tried on a read-only copy of a read-only vector)"""
+    if kind_of(x) != 'v' or not x.read_only or x.size == 0: return None
+    e = env()
+    def fresh():
+        c = x.copy(); c.setflags(0); return c
+    n = x.size
+    tries = []
+    for name, f in IBINF.items():
+        if name in ('and', 'xor', 'or'): continue         # float vectors: NumPy's TypeError comes first
+        for kind, arg in ro_operands(n):
+            tries.append((f'{name} with {kind}', (lambda c, f=f, arg=arg: f(c, arg))))
+    for kind, ix in (('int', 0), ('tuple', (0,)), ('list', [0]), ('mask', [True] + [False] * (n - 1)), ('slice', slice(0, 1)), ('[:]', slice(None))):
+        for vk, val in (('scalar', 3.0), ('zero', 0.0)):
+            tries.append((f'setitem {kind} = {vk}', (lambda c, ix=ix, val=val: c.__setitem__(ix, val))))
+    tries.append(('clear', lambda c: c.clear()))
+    for what, f in tries:
+        c = fresh(); before = dict(c.dct), c.size
+        try:
+            f(c)
+            return f'ibin:{what.split()[0]}:v:probe: read-only vector: {what} on a read-only SparseVector is accepted'
+        except ValueError:
+            pass
+        except Exception as ex:
+            return f'ibin:{what.split()[0]}:v:probe: read-only vector: {what} raises {type(ex).__name__} instead of ValueError'
+        if (dict(c.dct), c.size) != before:
+            return f'ibin:{what.split()[0]}:v:probe: read-only vector: {what} was rejected but changed the data'
+    return None
+
 def zero_class(pre_dense, op):
     """x/0 with x != 0 somewhere ('nonzero/0') or only 0/0"""
     n = op[0]
@@ -930,6 +1023,7 @@ CLASSES = [
     ('outside range', 'invariant-key-out-of-range'),
     ('not a set', 'invariant-dict-as-set'),
     ('rejected-but-modified', 'rejected-but-modified'),
+    ('read-only vector', 'read-only-vector-write-accepted'),
     ('read-only', 'read-only-write-accepted'),
     ('frame', 'frame'),
     ('logical nonzero/0', 'logical-nonzero-over-zero-accepted'),
@@ -999,3 +1093,10 @@ def shrink(case):
         if m and finding_key(trial, m) == key: ops = trial['ops']
         else: i += 1
     return dict(case, ops=ops)
+
+WITNESSES += [
+    {'key': 'C09:broadcast-not-supported:ibin',
+     'case': {'objs': [['a', [[1.0, 2.0], [3.0, 4.0]]]], 'ops': [['ibin', 'add', 0, ['n2', [[1.0], [2.0]]]]]}},
+    {'key': 'C09:result-shape:bin',
+     'case': {'objs': [['a', [[1.0, 2.0, 3.0]]]], 'ops': [['bin', 'add', 0, ['n2', [[1.0, 1.0, 1.0], [2.0, 2.0, 2.0]]]]]}},
+]
